@@ -358,7 +358,7 @@ func c17Pending(p *chk.Prog, r *chk.Report) {
 			for _, rs := range st.RangeLoops(advs) {
 				a := rangeVal(st, rs)
 				ins := st.IsAssignPat("M[A.Prefix.String()]", "A", chk.H("M", st.IsObj(m)), chk.H("A", a))
-				okFill = !loopSkipsWithout(g, rs, ins, nil) && !loopHasBreak(g, rs) && g.AfterLoop(stores[0], rs)
+				okFill = !loopSkipsWithout(g, rs, ins, chk.NoGuard) && !loopHasBreak(g, rs) && g.AfterLoop(stores[0], rs)
 				// validation precedes insertion; failure returns the error
 				for _, s := range g.Find(ins) {
 					if !g.Dominated(s, g.GErrNil(true, "validate(A)", chk.H("A", a))) {
@@ -411,7 +411,7 @@ func c17Diff(p *chk.Prog, r *chk.Report) {
 	okFull := full != nil
 	if okFull {
 		send := f.ContainsPat("sendUpdate(RECV.conn, RECV.MyASN, IBGP, FB, RECV.nextHop, A)", chk.H("A", rangeVal(f, full)))
-		okFull = !loopSkipsWithout(g, full, send, nil) && !loopHasBreak(g, full)
+		okFull = !loopSkipsWithout(g, full, send, chk.NoGuard) && !loopHasBreak(g, full)
 		w := g.MustPass(chk.Site{}, func(n ast.Node) bool { return n == wait.Top || chk.Encloses(n, wait.Node) }, false, func(n ast.Node) bool { return n == ast.Node(full.X) })
 		okFull = okFull && !w.Found
 		x.Check("sendUpdates:full-table-before-first-wait", full.Pos(), okFull, "", "after a (re)connection the sender can start waiting without having sent every advertised route (the peer's table was reset by the session loss)")
@@ -471,7 +471,7 @@ func c17Diff(p *chk.Prog, r *chk.Report) {
 		r2, i2 := g.DefOf(oid, site)
 		return r1 != nil && r1 == r2 && i1 == 0 && i2 == 1 && f.MatchWith("RECV.advertised[K]", r1, chk.H("K", k)) != nil
 	}
-	y.Check("sendUpdates:diff-sends-new-or-changed", diffNew.Pos(), !loopSkipsWithout(g, diffNew, send, same) && !loopHasBreak(g, diffNew), "", "an advertisement that is new or whose attributes changed can be skipped in the diff phase")
+	y.Check("sendUpdates:diff-sends-new-or-changed", diffNew.Pos(), !loopSkipsWithout(g, diffNew, send, chk.GFunc(same)) && !loopHasBreak(g, diffNew), "", "an advertisement that is new or whose attributes changed can be skipped in the diff phase")
 	ok, ov := rangeKey(f, diffOld), rangeVal(f, diffOld)
 	wapp := func(n ast.Node) bool { return f.IsAssignPat("W", "append(W, A.Prefix)", chk.H("A", ov))(n) }
 	missing := g.GPat(true, "RECV.new[K] == nil", chk.H("K", ok))
